@@ -63,7 +63,7 @@ void writer_thread(void *arg) {
       case O_REOPEN: {
         ldb_close(R.db); R.db = nullptr;
         R.incarnations.push_back(R.journal.e.size());
-        R.opt->set(R.p->cfg, true);
+        { Config n = R.p->cfg; if (!o.s.empty() && n.parse(o.s)) { n.cmp = R.p->cfg.cmp; n.rlimit = R.p->cfg.rlimit; probe("reopen_new_options"); } else n = R.p->cfg; R.opt->set(n, true); }
         int rc = ldb_open(R.dir.c_str(), &R.opt->o, &R.db);
         if (rc) { violation("C05", "open_failed", "clean reopen failed: %s", rcname(rc)); R.db = nullptr; return; }
         probe("reopens");
@@ -391,7 +391,7 @@ Plan gen_crash(uint64_t seed, const string &prop) {
   p.mode = "crash"; p.seed = seed;
   p.cfg = random_config(r);
   if (r.chance(0.6)) p.cfg.wbs = 65536;
-  p.cfg.cmp = 0;
+  if (p.cfg.cmp == 3) p.cfg.cmp = 0; // the judges compare maps keyed by byte strings: comparators that equate different strings stay out
   int nthreads = r.chance(0.55) ? 1 : (int)r.range(2, 3);
   // C13 flavour (two runs in three): the file-set rules look at the session itself, so make it eventful - several
   // writers filling 64 KiB write buffers while another caller compacts - and spend less on crash images
@@ -411,7 +411,29 @@ Plan gen_crash(uint64_t seed, const string &prop) {
   std::vector<int> nmark(nthreads, 0);
   // aligned flavour (single writer): while the position in the first log is still predictable, one batch is sized so
   // that its record ends exactly on, or 1/6/7/8 bytes before, a 32 KiB block boundary
-  bool aligned = nthreads == 1 && r.chance(0.3);
+  // big-compaction flavour: two overlapping level-0 files of about 0.75 MiB of incompressible data each, so that the
+  // manual compaction that follows writes several output files (max_file_size 1 MiB) - crashed at every boundary
+  bool bigc = !g_light && !c13 && r.chance(g_thorough ? 0.05 : 0.015);
+  if (bigc) {
+    nthreads = 1; p.seti("threads", 1); nmark.assign(1, 0);
+    p.cfg.wbs = 4 << 20; p.cfg.mfs = 1 << 20; p.cfg.comp = 0;
+    for (int f = 0; f < 2; f++) {
+      int nb = (int)r.range(6, 8);
+      for (int b = 0; b < nb; b++) {
+        Op o; o.tid = 0; o.kind = O_WRITE;
+        Upd m; m.key = marker_key(0, nmark[0]++); m.tag = tag++; m.len = 8; o.ups.push_back(m);
+        Upd u; char kb[48]; snprintf(kb, sizeof kb, "w0/k%03d", f + 2 * b); u.key = kb; u.tag = tag++; u.fill = 1; u.len = (uint32_t)r.range(90000, 120000); o.ups.push_back(u);
+        o.sync = r.chance(0.3);
+        p.ops.push_back(o);
+      }
+      Op fl; fl.kind = O_FLUSH; fl.tid = 0; p.ops.push_back(fl);
+    }
+    // the first flush lands in level 2 (nothing overlaps), the second in level 1: merge them there
+    for (int l = 0; l <= 1; l++) { Op o; o.kind = O_COMPACT_RANGE; o.a = l; o.tid = 0; p.ops.push_back(o); }
+    nops = (int)r.range(2, 8);
+    p.seti("big_compaction", 1);
+  }
+  bool aligned = nthreads == 1 && !bigc && r.chance(0.3);
   size_t logpos = 0; bool pos_known = true; int align_at = aligned ? (int)r.below(4) : -1, nwrites = 0;
   for (int i = 0; i < nops; i++) {
     Op o; o.tid = (int)r.below(nthreads);
@@ -448,7 +470,7 @@ Plan gen_crash(uint64_t seed, const string &prop) {
     } else if (c < 84) o.kind = O_FLUSH, o.tid = 0;
     else if (c < 91) { o.kind = O_COMPACT_RANGE; o.a = (int)r.below(r.chance(0.3) ? 6 : 3); o.tid = 0; }
     else if (c < 93) { o.kind = O_COMPACT; o.tid = 0; }
-    else if (c < 97 && nthreads == 1) { o.kind = O_REOPEN; o.tid = 0; }
+    else if (c < 97 && nthreads == 1) { o.kind = O_REOPEN; o.tid = 0; if (r.chance(0.5)) { Config n = random_config(r); n.cmp = p.cfg.cmp; n.rlimit = p.cfg.rlimit; o.s = n.str(); } }
     else { o.kind = O_GET; char kb[48]; snprintf(kb, sizeof kb, "w%d/k%03d", o.tid, (int)r.below(nkeys)); o.key = kb; }
     p.ops.push_back(o);
   }
